@@ -45,6 +45,15 @@ def check(ctx):
             c = n.body[0].value if isinstance(n.body[0], _ast.Expr) else None
             if isinstance(c, _ast.Call) and _u(c.func).endswith('.add') and isinstance(c.args[0], _ast.Constant):
                 got[_u(n.test.args[1])] = c.args[0].value
+    from rules.abstypes import table_dispatch as _td
+    for _subj, _pairs, _lp, _test, _pv in _td(ctx, ft):
+        # table form: the loop body adds the pair's second element
+        adds = [c for c in _ast.walk(_test) if isinstance(c, _ast.Call) and _u(c.func).endswith('.add') and c.args
+                and isinstance(c.args[0], _ast.Name) and c.args[0].id == _pv]
+        if adds:
+            for cexpr, pexpr in _pairs:
+                if isinstance(pexpr, _ast.Constant):
+                    got[_u(cexpr)] = pexpr.value
     run.rule('R16i', 'INFERENCE-TABLE: each Python class of a sampled value maps to the Table Schema type that accepts it; a column whose '
                      'sample shows more than one type (or none) is declared "any"')
     run.check(got == want, 'R16i', ft.where, ft.qualname, 'class -> type table %s' % sorted(got.items()),
